@@ -74,6 +74,7 @@ type KWorld struct {
 	opsInSeg  int
 	snap      map[string]map[string]uint64 // per covered dir spelling: entry -> inode at the last quiescent point
 	snapDir   map[string]bool              // entries that were directories at the last quiescent point
+	movedAway map[string]bool              // "<inode of directory>/<name>": entries renamed away since the last quiescent point
 	Findings  []engine.Finding
 	step      int
 	Events    int
@@ -303,12 +304,19 @@ func (k *KWorld) fsop(s KStep, observe bool) error {
 			k.Feat["overwrite-of-lone-file-watch-skipped"]++
 			return syscall.EEXIST
 		}
+		spar := parentOf(p)
 		err := kRename(p, q)
 		if err != nil {
 			return err
 		}
 		if dst.ok && dst.ino == src.ino && dst.dev == src.dev {
 			return nil
+		}
+		if spar.ok {
+			if k.movedAway == nil {
+				k.movedAway = map[string]bool{}
+			}
+			k.movedAway[fmt.Sprintf("%d/%s", spar.ino, filepath.Base(p))] = true
 		}
 		if observe && dst.ok && dst.dir && dcov && engine.IsKnown(SigF14) {
 			// recorded defect F14 (directory variant): a subdirectory entry
@@ -409,6 +417,7 @@ func (k *KWorld) dirGone(id ident, observe bool, op string) {
 func (k *KWorld) takeSnap() {
 	k.snap = map[string]map[string]uint64{}
 	k.snapDir = map[string]bool{}
+	k.movedAway = map[string]bool{}
 	for _, u := range k.user {
 		if !u.isDir {
 			continue
@@ -490,10 +499,17 @@ func (k *KWorld) Sync() {
 			// got no Create; the directory scan may also have stopped there, so
 			// nothing about this segment can be judged exactly.
 			if old != nil && engine.IsKnown(SigF14) {
+				udir := sident(u.spelling)
 				for _, e := range ents {
 					p := filepath.Join(u.spelling, e.Name())
 					id := lident(p)
-					if ino, was := old[e.Name()]; trackable(id, p) && was && creates[p] == 0 && (renamedIn(evs, p, false) || ino != id.ino && renamedIn(evs, p, k.snapDir[p])) {
+					// the rename away is taken from the history, not only from a
+					// delivered Rename: for an entry that is itself a watched
+					// directory, modified and then renamed away in the burst, the
+					// merged Write|Rename notification goes to the directory scan
+					// and no Rename event is sent
+					away := k.movedAway[fmt.Sprintf("%d/%s", udir.ino, e.Name())]
+					if ino, was := old[e.Name()]; trackable(id, p) && was && creates[p] == 0 && (renamedIn(evs, p, false) || ino != id.ino && (away || renamedIn(evs, p, k.snapDir[p]))) {
 						k.Known[SigF14]++
 						k.abandoned = true
 					}
